@@ -116,7 +116,7 @@ Definition eval (op : Z) (a : list float) : option (list float) :=
   | 11 => Some (res_out (from_svg nums fmod pinned (unpack a)))
   | 3 | 13 => match a with
          | [fx; fy; tx; ty; rx; ry; xr; la; sw] =>
-             Some (match from_svg_arc fmod (mkSvgArc (mkPoint fx fy) (mkPoint tx ty) (mkVec2 rx ry) xr
+             Some (match from_svg_arc fmod true (mkSvgArc (mkPoint fx fy) (mkPoint tx ty) (mkVec2 rx ry) xr
                                                      (PrimFloat.eqb la 1) (PrimFloat.eqb sw 1)) with
                    | None => [0%float]
                    | Some arc => [1%float; px (arc_center arc); py (arc_center arc); vx (arc_radii arc); vy (arc_radii arc);
